@@ -246,7 +246,9 @@ func (x *prioExec) injectStop(op POp) {
 	if x.sys.stop == nil || x.stopIssued {
 		return
 	}
-	synctest.Wait()
+	if op.Mode != "at-once" { // at-once: the constructor has just returned, the discipline's goroutines are still starting
+		synctest.Wait()
+	}
 	blockedWriters := 0
 	for _, in := range x.inputs {
 		if in.wsCount.Load() > in.wcCount.Load() {
@@ -264,6 +266,9 @@ func (x *prioExec) injectStop(op POp) {
 		class = "producers-blocked"
 	case len(x.held) > 0:
 		class = "some-in-flight"
+	}
+	if op.Mode == "at-once" {
+		class = "right-after-construction"
 	}
 	x.res.StopState = op.K + "/" + class
 	x.res.StopInjected = true
